@@ -6,8 +6,9 @@ cd /repo
 if [ -n "$(git status --porcelain -uno)" ]; then echo "/repo is dirty"; exit 2; fi
 git apply $P || { echo "patch does not apply"; exit 2; }
 cd /verif
+mkdir -p /scratch; cp evidence/$C.json /scratch/seedtest_evidence_$C.json 2>/dev/null
 ./check $C --tier $T > /scratch/seedtest_$C.log 2>&1; RC=$?
 git -C /repo checkout -- .
 echo "exit=$RC"; grep -E "VIOLATION|KNOWN-FINDING|MACHINERY|UNDISCHARGED|^==|reproduced|natively" /scratch/seedtest_$C.log | head -12
 rm -f /verif/replays/*
-git -C /verif checkout -- evidence 2>/dev/null
+cp /scratch/seedtest_evidence_$C.json /verif/evidence/$C.json 2>/dev/null   # only the evidence file of the check that ran is put back
